@@ -91,7 +91,7 @@ def check_reset(ctx, chk, prefix):
         c = cs[0]
         # loop coverage: directly inside one loop over the complete address list
         loops = [x for x in c.ev.pc if x[0] == "inloop"]
-        conds = [x for x in c.ev.pc if x[0] != "inloop"]
+        conds = [x for x in c.ev.pc if x[0] not in ("inloop", "fact")]
         it = cn.show(r.ip.loops[loops[0][1]]["iter"]) if loops else "?"
         addr_ok = len(loops) == 1 and it == "scenario.address_space" and \
             cn.show(c.addr) == "each(scenario.address_space)"
